@@ -17,6 +17,7 @@ import TdVerif.Model.C02Td
 import TdVerif.Lemmas.C02Basic
 import TdVerif.Lemmas.C02Coord
 import TdVerif.Lemmas.C02Meta
+import TdVerif.Lemmas.C02Tree
 
 namespace TdVerif.Props.C02
 open TdVerif.C02
@@ -647,6 +648,55 @@ theorem splitList_partition (sizes : List Int) (max : Nat) (ps : List (Nat × Na
           rw [hl] at h1; exact h1
 
 
+/-- `split(k)`: the piece lengths the code produces are exactly torch's `split` sizes
+(`ceil(n/k)` pieces of size `k`, the last one shorter; one empty piece when both are 0) -/
+theorem split_sizes_eq_torch (k : Nat) (max : Nat) (ps : List (Nat × Nat)) (h : splitPieces (k : Int) max = .ok ps) :
+    ps.map Prod.snd = splitSizes max k := by
+  unfold splitPieces at h
+  have hk0 : ¬ ((k : Int) < 0) := by omega
+  simp only [hk0, if_false, Int.toNat_natCast] at h
+  by_cases hz : (k : Int) = 0 ∧ max ≠ 0
+  · rw [if_pos hz] at h; cases h
+  · rw [if_neg hz] at h
+    simp only [Except.ok.injEq] at h
+    subst h
+    unfold splitSizes
+    by_cases hk : k = 0
+    · subst hk
+      have hm : max = 0 := by
+        by_cases hm : max = 0
+        · exact hm
+        · exact absurd ⟨rfl, hm⟩ hz
+      subst hm
+      simp [splitLoop]
+    · have hkpos : 0 < k := Nat.pos_of_ne_zero hk
+      simp only [hk, if_false, List.map_cons]
+      by_cases hm : max = 0
+      · subst hm; simp [splitLoop]
+      · simp only [hm, if_false]
+        have hloop := splitLoop_sizes k max hkpos max 1 (by omega)
+        rw [Nat.one_mul] at hloop
+        rw [hloop]
+        have hc : 0 < (max + k - 1) / k := (lt_ceil_iff max k 0 hkpos).2 (by omega)
+        have hr : List.range ((max + k - 1) / k) = 0 :: List.range' 1 ((max + k - 1) / k - 1) := by
+          rw [List.range_eq_range']
+          have : (max + k - 1) / k = ((max + k - 1) / k - 1) + 1 := by omega
+          rw [this, List.range'_succ]; simp
+        rw [hr, List.map_cons]
+        simp
+        exact Nat.min_comm max k
+
+/-- `chunk(c)` = `split(ceil(n/c))` (by the code), and the piece lengths are torch's `chunk` sizes -/
+theorem chunk_eq_split_ceil (c : Nat) (max : Nat) (ps : List (Nat × Nat))
+    (hpos : 0 < (max + c - 1) / c)
+    (h : splitPieces (((max + c - 1) / c : Nat) : Int) max = .ok ps) :
+    ps.map Prod.snd = Torch.chunkSizes max c := by
+  unfold Torch.chunkSizes
+  have : ¬ ((max + c - 1) / c = 0) := by omega
+  simp only [this, if_false]
+  exact split_sizes_eq_torch _ max ps h
+
+
 /-! ## unbind / split pieces on leaves; nested tensordicts -/
 
 /-- unbind: the leaf call returns the `select`s along `d`, and each is the select of the batch view (unbind_eq_selects) -/
@@ -763,6 +813,162 @@ theorem stack_unbind [Inhabited α] (ts : List (T α)) (s : Shape) (d i : Nat) (
   · simp only [T.unbind, List.length_map, List.length_range, hshape]
     simp [List.getD_eq_getElem?_getD, List.getElem?_insertIdx_self, hd]
 
+
+/-! ## whole trees -/
+
+/-- on a leaf carrying `bs` as a prefix, a good call succeeds and the result carries the new batch size as a prefix -/
+theorem goodCall_leaf (call : LeafCall) (bs bs' : Shape) (g : GoodCall call bs bs') (t : T α)
+    (ht : t.shape.take bs.length = bs) :
+    ∃ t', applyLeaf call t = .ok t' ∧ t'.shape.take bs'.length = bs' := by
+  have hn : bs.length ≤ t.shape.length := by
+    have := congrArg List.length ht; simp at this; omega
+  cases g with
+  | transpose i j _ hij hj =>
+    have hi' : i < t.rank := by unfold T.rank; omega
+    have hj' : j < t.rank := by unfold T.rank; omega
+    have h0 : t.rank ≠ 0 := by omega
+    refine ⟨t.transpose i j, by simp [applyLeaf, Torch.transpose, wrapDim_ofNat hi', wrapDim_ofNat hj', h0], ?_⟩
+    simp only [T.transpose, swap_length]
+    rw [swap_take _ _ _ _ (by omega) hj, ht]
+  | unsqueeze i _ hi =>
+    have hlt : i < t.rank + 1 := by unfold T.rank; omega
+    have hl : (bs.insertIdx i 1).length = bs.length + 1 := List.length_insertIdx_of_le_length hi 1
+    refine ⟨t.unsqueeze i, by simp [applyLeaf, Torch.unsqueeze, normDim_ofNat hlt], ?_⟩
+    simp only [T.unsqueeze, hl]
+    rw [insertIdx_take _ _ _ _ hi hn, ht]
+  | squeeze i _ hi h1 =>
+    have hi' : i < t.rank := by unfold T.rank; omega
+    have h0 : t.rank ≠ 0 := by omega
+    have hg : t.shape.getD i 0 = 1 := by
+      rw [← ht] at h1
+      simpa [List.getD_eq_getElem?_getD, List.getElem?_take, hi] using h1
+    have hsq : t.squeeze i = t.select i 0 := by unfold T.squeeze; rw [if_pos hg]
+    have hl : (bs.eraseIdx i).length = bs.length - 1 := List.length_eraseIdx_of_lt hi
+    refine ⟨t.select i 0, by simp [applyLeaf, Torch.squeeze, wrapDim_ofNat hi', h0, hsq], ?_⟩
+    simp only [T.select, hl]
+    rw [eraseIdx_take _ _ _ hi hn, ht]
+  | flatten a b _ hab hb =>
+    have ha' : a < t.rank := by unfold T.rank; omega
+    have hb' : b < t.rank := by unfold T.rank; omega
+    have h0 : t.rank ≠ 0 := by omega
+    have hblk : (t.shape.drop a).take (b + 1 - a) = (bs.drop a).take (b + 1 - a) := by
+      rw [← ht]
+      apply List.ext_getElem?; intro k
+      simp [List.getElem?_take, List.getElem?_drop]; grind
+    have hl : (bs.take a ++ [prod ((bs.drop a).take (b + 1 - a))] ++ bs.drop (b + 1)).length = bs.length - (b - a) := by
+      simp; omega
+    refine ⟨t.flatten a b, by simp [applyLeaf, Torch.flatten, wrapDim_ofNat ha', wrapDim_ofNat hb', h0]; omega, ?_⟩
+    simp only [T.flatten, hl, hblk]
+    rw [← ht]
+    apply List.ext_getElem?; intro k
+    simp [List.getElem?_take, List.getElem?_drop, List.getElem?_append, List.length_take]; grind
+  | permute p _ hp hid =>
+    have hpl : p.length = bs.length := by simpa using hp.length_eq
+    obtain ⟨t', h1, h2⟩ := permute_leaf_commutes t p bs.length hp (by unfold T.rank; exact hn)
+    refine ⟨t', h1, ?_⟩
+    have hs := h2.1
+    simp only [asBatch, T.permute] at hs
+    rw [ht] at hs
+    simpa [hpl] using hs
+  | view _ _ hprod hne =>
+    obtain ⟨t', h1, h2⟩ := view_leaf_commutes t bs.length bs' (by unfold T.rank; exact hn) (by rw [ht]; exact hprod)
+    exact ⟨t', h1, by have hs := h2.1; simpa [asBatch, T.reshape] using hs⟩
+  | reshape _ _ hprod hne =>
+    obtain ⟨t', h1, h2⟩ := reshapeCall_leaf_commutes t bs.length bs' (by unfold T.rank; exact hn) (by rw [ht]; exact hprod)
+    exact ⟨t', h1, by have hs := h2.1; simpa [asBatch, T.reshape] using hs⟩
+
+
+
+/-- the whole-tree statement behind "each entry equals the same operation applied to that entry's batch dims … and nested
+tensordicts are transformed recursively": on a coherent tree (every entry carries its parent's batch as a prefix, at every depth),
+a good call succeeds on every entry — tensor leaves through torch, nested tensordicts through the same method with padded
+arguments — and the result is again coherent w.r.t. the new batch size, with feature dims / extra batch dims untouched -/
+theorem shape_op_coherent_all :
+    (∀ (op : Op) (bs : Shape) (names : Names) (es : List (String × TD α)),
+        ∀ bs' nm' call, opMeta op bs names = .ok (some (bs', nm', call)) → GoodCall call bs bs' →
+          (∀ d sz, op ≠ .unflatten d sz) → CoherentList bs es →
+          ∃ nm es', tdNode op bs names es = .ok (.node bs' nm es') ∧ CoherentList bs' es') ∧
+    (∀ (call : LeafCall) (es : List (String × TD α)), ∀ bs bs', GoodCall call bs bs' → CoherentList bs es →
+          ∃ es', mapEntries call es = .ok es' ∧ CoherentList bs' es') ∧
+    (∀ (call : LeafCall) (e : TD α), ∀ bs bs', GoodCall call bs bs' → PrefixOK bs e → Coherent e →
+          ∃ e', applyEntry call e = .ok e' ∧ PrefixOK bs' e' ∧ Coherent e') := by
+  apply tdNode.mutual_induct (α := α)
+    (motive1 := fun op bs names es => ∀ bs' nm' call, opMeta op bs names = .ok (some (bs', nm', call)) → GoodCall call bs bs' →
+          (∀ d sz, op ≠ .unflatten d sz) → CoherentList bs es →
+          ∃ nm es', tdNode op bs names es = .ok (.node bs' nm es') ∧ CoherentList bs' es')
+    (motive2 := fun call es => ∀ bs bs', GoodCall call bs bs' → CoherentList bs es →
+          ∃ es', mapEntries call es = .ok es' ∧ CoherentList bs' es')
+    (motive3 := fun call e => ∀ bs bs', GoodCall call bs bs' → PrefixOK bs e → Coherent e →
+          ∃ e', applyEntry call e = .ok e' ∧ PrefixOK bs' e' ∧ Coherent e')
+  · -- tdNode
+    intro op bs names es ih bs' nm' call hm g hnu hc
+    obtain ⟨es', hes, hc'⟩ := ih call bs bs' g hc
+    unfold tdNode
+    simp only [hm, bind, Except.bind, hes]
+    cases op with
+    | unflatten d sz => exact absurd rfl (hnu d sz)
+    | permute _ => exact ⟨_, es', rfl, hc'⟩
+    | transpose _ _ => exact ⟨_, es', rfl, hc'⟩
+    | squeeze _ => exact ⟨_, es', rfl, hc'⟩
+    | unsqueeze _ => exact ⟨_, es', rfl, hc'⟩
+    | flatten _ _ => exact ⟨_, es', rfl, hc'⟩
+    | view _ => exact ⟨_, es', rfl, hc'⟩
+    | reshape _ => exact ⟨_, es', rfl, hc'⟩
+    | expand _ => exact ⟨_, es', rfl, hc'⟩
+  · -- mapEntries []
+    intro call bs bs' _ _
+    exact ⟨[], by simp [mapEntries, pure, Except.pure], by simp [CoherentList]⟩
+  · -- mapEntries cons
+    intro call k e rest ih1 ih2 bs bs' g hc
+    simp only [CoherentList] at hc
+    obtain ⟨e', he, hp, hce⟩ := ih1 bs bs' g hc.1 hc.2.1
+    obtain ⟨rest', hr, hcr⟩ := ih2 bs bs' g hc.2.2
+    refine ⟨(k, e') :: rest', ?_, ?_⟩
+    · simp only [mapEntries, bind, Except.bind, he, hr, pure, Except.pure]
+    · simp only [CoherentList]; exact ⟨hp, hce, hcr⟩
+  · -- applyEntry leaf
+    intro call t bs bs' g hp _
+    obtain ⟨t', h1, h2⟩ := goodCall_leaf call bs bs' g t hp
+    exact ⟨.leaf t', by simp [applyEntry, h1, Except.map], h2, by simp [Coherent]⟩
+  · -- applyEntry node
+    intro call bs2 names2 es2 ih bs bs' g hp hc
+    simp only [PrefixOK] at hp
+    obtain ⟨ext, rfl⟩ := prefix_split bs bs2 hp
+    obtain ⟨nm3, call2, hm, g2⟩ := goodCall_nested call bs bs' g ext names2
+    simp only [Coherent] at hc
+    obtain ⟨nm, es', hr, hc'⟩ := ih (bs' ++ ext) nm3 call2 hm g2 (goodCall_not_unflatten call bs bs' g _) hc
+    refine ⟨.node (bs' ++ ext) nm es', by simp only [applyEntry]; exact hr, ?_, ?_⟩
+    · simp [PrefixOK]
+    · simp only [Coherent]; exact hc'
+
+
+/-- corollary in terms of the public op: whenever the batch arithmetic of transpose / unsqueeze / squeeze(dim) / flatten accepts
+(and does not return `self`), the op succeeds on EVERY entry of a coherent tree, at every depth, and the result is coherent
+with the batch size the arithmetic computed (= torch's, by the `*_batch_eq_torch` theorems) -/
+theorem shape_op_coherent (op : Op) (bs bs' : Shape) (names nm' : Names) (call : LeafCall) (es : List (String × TD α))
+    (hop : match op with | .transpose _ _ => True | .unsqueeze _ => True | .squeeze (some _) => True | .flatten _ _ => True | _ => False)
+    (h : opMeta op bs names = .ok (some (bs', nm', call))) (hc : CoherentList bs es) :
+    ∃ nm es', tdNode op bs names es = .ok (.node bs' nm es') ∧ CoherentList bs' es' := by
+  have g := goodCall_of_meta op bs bs' names nm' call hop h
+  refine shape_op_coherent_all.1 op bs names es bs' nm' call h g ?_ hc
+  intro d sz hne
+  subst hne
+  exact hop
+
+/-- the same for permute: every permutation the arithmetic accepts (not the identity) is carried out on the whole tree -/
+theorem permute_coherent (dims : List Int) (bs bs' : Shape) (names nm' : Names) (call : LeafCall) (es : List (String × TD α))
+    (h : opMeta (.permute dims) bs names = .ok (some (bs', nm', call))) (hc : CoherentList bs es) :
+    ∃ nm es', tdNode (.permute dims) bs names es = .ok (.node bs' nm es') ∧ CoherentList bs' es' :=
+  shape_op_coherent_all.1 _ bs names es bs' nm' call h (goodCall_of_meta_permute dims bs bs' names nm' call h)
+    (by intro d sz hne; cases hne) hc
+
+/-- the same for view / reshape, for sizes consistent with the batch (the arithmetic itself does not check this: known finding) -/
+theorem view_coherent (shape : List Int) (bs bs' : Shape) (names nm' : Names) (call : LeafCall) (es : List (String × TD α))
+    (hprod : prod bs' = prod bs)
+    (h : opMeta (.view shape) bs names = .ok (some (bs', nm', call))) (hc : CoherentList bs es) :
+    ∃ nm es', tdNode (.view shape) bs names es = .ok (.node bs' nm es') ∧ CoherentList bs' es' :=
+  shape_op_coherent_all.1 _ bs names es bs' nm' call h (goodCall_of_meta_view true shape bs bs' names nm' call hprod h)
+    (by intro d sz hne; cases hne) hc
 
 /-! ## non-vacuity: the hypotheses are satisfiable by concrete, non-trivial values, and the models compute -/
 
